@@ -1,7 +1,8 @@
+pub mod c01;
 pub mod c09;
 
 use crate::engine::Prop;
 
 pub fn registry() -> Vec<Box<dyn Prop>> {
-    vec![Box::new(c09::C09)]
+    vec![Box::new(c01::C01), Box::new(c09::C09)]
 }
